@@ -202,3 +202,38 @@ Example refuted_null_id_filter :
         [(VOid 1000, VDoc [("_id", VOid 1000); ("a", VInt 1); ("b", VInt 1)]);
          (VOid 1001, VDoc [("_id", VOid 1001); ("a", VInt 1); ("b", VInt 1)])]).
 Proof. vm_compute. split; reflexivity. Qed.
+
+(* ------------------------------------------------------------------ D: arguments that are not dicts *)
+(* Found while proving the last clause for dotted filter keys (Proofs/C13Dotted.v).  The
+   theorems C13_history_flat_partial / C13_history_dotted_partial / C13_history_wf_partial /
+   C13_history_args_partial assume well-formed arguments (no repeated key in any sub-document
+   of the filter and the update).  That premise cannot be dropped from the FULL statement
+   C13_history: with guard 0 and the screen c13_undecided false, the last clause is false on
+   the model when the filter's literal contains a sub-document with a repeated key, because
+   such a value is not == to itself (py_eq follows the first occurrence of a key), so the
+   upserted document, which holds exactly the filter's literal, is not matched by the filter.
+   Such values are not Python dicts: a model-only artefact, no library behaviour (same family
+   as A2); nothing is added to c13_reasons, the premise c13_wf_args (decidable, on the
+   operations alone, true of every Python value) excludes the class.  The weakened predicate
+   c13w_ok (clauses (1)-(2)) is true.  D2 is the same with a dotted key. *)
+Definition cex_dup := VDoc [("x", VInt 1); ("x", VInt 2)].
+Definition cex_nondict_literal : list op :=
+  [OUpdate (VDoc [("a", VArr [cex_dup])]) (VDoc [("$set", VDoc [("z", VInt 1)])]) false true].
+Example refuted_nondict_literal :
+  undecided_verdict cex_nondict_literal = (false, true, 0, false, true) /\
+  wf_value (VDoc [("a", VArr [cex_dup])]) = false /\
+  last_step cex_nondict_literal =
+  Some (Ok (VDoc [("matched", VInt 0); ("modified", VInt 0); ("upserted_id", VOid 1000)]),
+        [(VOid 1000, VDoc [("a", VArr [cex_dup]); ("_id", VOid 1000); ("z", VInt 1)])]) /\
+  filter_applies (VDoc [("a", VArr [cex_dup])])
+                 (VDoc [("a", VArr [cex_dup]); ("_id", VOid 1000); ("z", VInt 1)]) = Ok false.
+Proof. vm_compute. repeat split; reflexivity. Qed.
+
+Definition cex_nondict_literal_dotted : list op :=
+  [OUpdate (VDoc [("a.b", VArr [cex_dup])]) (VDoc [("$set", VDoc [("a.c", VInt 1)])]) false true].
+Example refuted_nondict_literal_dotted :
+  undecided_verdict cex_nondict_literal_dotted = (false, true, 0, false, true) /\
+  last_step cex_nondict_literal_dotted =
+  Some (Ok (VDoc [("matched", VInt 0); ("modified", VInt 0); ("upserted_id", VOid 1000)]),
+        [(VOid 1000, VDoc [("a", VDoc [("b", VArr [cex_dup]); ("c", VInt 1)]); ("_id", VOid 1000)])]).
+Proof. vm_compute. split; reflexivity. Qed.
